@@ -15,7 +15,20 @@ import (
 	"time"
 )
 
-const verifDir = "/verif"
+// verifDir is the root of the verification tree: $VX_ROOT, else the parent of the directory that
+// holds the executable (…/bin/vx), else /verif. Background runs from a snapshot use their own copy.
+var verifDir = func() string {
+	if d := os.Getenv("VX_ROOT"); d != "" {
+		return d
+	}
+	if exe, err := os.Executable(); err == nil {
+		d := filepath.Dir(filepath.Dir(exe))
+		if _, err := os.Stat(filepath.Join(d, "harness")); err == nil {
+			return d
+		}
+	}
+	return "/verif"
+}()
 
 type CheckDef struct {
 	ID         string
